@@ -280,7 +280,18 @@ impl World {
         self.slots
             .iter()
             .map(|s| match s {
-                Some(s) => Snap { present: true, is_b: s.h.is_b(), ptr: s.h.ptr(), len: s.h.len(), cap: s.h.cap(), bytes: s.h.bytes().to_vec() },
+                Some(s) => {
+                    // read the bytes only if the view lies inside memory we know (a handle corrupted by
+                    // a failed call must not crash the harness: the mismatch in ptr/len is reported)
+                    let (p, l) = (s.h.ptr(), s.h.len());
+                    let readable = l == 0
+                        || oracle::find_live(p).map_or(false, |bi| {
+                            let b = oracle::blocks()[bi];
+                            p + l <= b.user + b.size
+                        })
+                        || oracle::find_region(p).map_or(false, |r| p + l <= r.base + r.len);
+                    Snap { present: true, is_b: s.h.is_b(), ptr: p, len: l, cap: s.h.cap(), bytes: if readable { s.h.bytes().to_vec() } else { vec![0xBD; 1] } }
+                }
                 None => Snap { present: false, is_b: false, ptr: 0, len: 0, cap: 0, bytes: vec![] },
             })
             .collect()
@@ -1033,13 +1044,21 @@ impl World {
         for i in 0..MAXH {
             if let Some(sl) = &self.slots[i] {
                 let (p, l, c) = (sl.h.ptr(), sl.h.len(), sl.h.cap());
-                // C01
-                if sl.h.bytes() != &sl.model[..] {
+                // C01 (skip the read when the view is not inside known memory: containment is reported below)
+                let readable = l == 0
+                    || oracle::find_live(p).map_or(false, |bi| {
+                        let b = oracle::blocks()[bi];
+                        p + l <= b.user + b.size
+                    })
+                    || oracle::find_region(p).map_or(false, |r| p + l <= r.base + r.len);
+                if !readable {
+                    v("C01", "view-outside-memory", format!("slot {}: the handle's view [{:#x}, +{}) is not inside any live allocation or static region; model len {}", i, p, l, sl.model.len()));
+                } else if sl.h.bytes() != &sl.model[..] {
                     v("C01", "contents", format!("slot {} ({}) reads {:02x?} (len {}), model {:02x?} (len {})", i, if sl.h.is_b() { "Bytes" } else { "BytesMut" }, sl.h.bytes(), l, sl.model, sl.model.len()));
                 }
                 let (rem, chunk_ok) = match &sl.h {
-                    H::B(b) => (b.remaining(), b.chunk() == &sl.model[..]),
-                    H::M(m) => (m.remaining(), m.chunk() == &sl.model[..]),
+                    H::B(b) => (b.remaining(), !readable || b.chunk() == &sl.model[..]),
+                    H::M(m) => (m.remaining(), !readable || m.chunk() == &sl.model[..]),
                 };
                 if rem != sl.model.len() || !chunk_ok {
                     v("C01", "buf-view", format!("slot {}: Buf::remaining()/chunk() disagree with the model (remaining {}, model len {})", i, rem, sl.model.len()));
